@@ -340,6 +340,43 @@ def signature_rule(chk, prog):
         chk.discharge(key)
 
 
+def macro_unsafe_hygiene(chk, prog):
+    """Exported macros: no caller-supplied expression/token fragment may be expanded inside an `unsafe` block of the macro."""
+    import re
+    key = "M:macro-unsafe-hygiene"
+    chk.obligation(key, "exported macros do not evaluate caller expressions inside their own unsafe blocks")
+    ok = True
+    n = 0
+    for name, m in prog.macros.items():
+        if not m["exported"]:
+            continue
+        n += 1
+        toks = m["tokens"]
+        frags = dict(re.findall(r"\$(\w+)\s*:\s*(\w+)", toks))
+        dangerous = {k for k, v in frags.items() if v in ("expr", "tt", "block", "stmt", "ident", "item", "pat", "literal")}
+        # scan for `unsafe {` ... matching `}`
+        for mt in re.finditer(r"\bunsafe\s*\{", toks):
+            depth, i = 1, mt.end()
+            while i < len(toks) and depth:
+                if toks[i] == "{":
+                    depth += 1
+                elif toks[i] == "}":
+                    depth -= 1
+                i += 1
+            inner = toks[mt.end():i - 1]
+            for v in re.findall(r"\$(\w+)", inner):
+                chk.evaluated(1, nontrivial=(key, name, v))
+                if v in dangerous:
+                    chk.violation("C16.M", "macro-unsafe:%s:%s" % (name, v), "exported macro %s! (%s) expands the caller's `$%s` (%s fragment) inside its own `unsafe` block: a program without any `unsafe` can run unsafe operations through the argument"
+                                  % (name, loc(m["span"]), v, frags[v]), macro=name, file=loc(m["span"]))
+                    ok = False
+    if n < 4:
+        chk.violation("floor", "C16.macros", "expected >= 4 exported macros, found %d" % n)
+        ok = False
+    if ok:
+        chk.discharge(key)
+
+
 def run(chk):
     prog = load_config("K1")
     chk.configs.append("K1")
@@ -347,6 +384,7 @@ def run(chk):
     chk.rule("C16.U", "every unsafe operation in a safe fn has a provenance justification")
     chk.rule("C16.L", "no raw-pointer lifetime laundering in safe fns")
     chk.rule("C16.P", "no safe dereference of a raw pointer stored in a publicly constructible field")
+    chk.rule("C16.M", "exported macros never expand caller-supplied expressions inside their own unsafe blocks")
     chk.rule("C16.S", "raw-pointer -> Reference conversions are unsafe fn; Reference payload private")
     sim = S.Sim(prog)
     maxn = 5 if chk.tier == "quick" else 8
@@ -357,6 +395,15 @@ def run(chk):
     cands = inventory(chk, prog)
     laundering_rule(chk, prog, cands)
     signature_rule(chk, prog)
+    macro_unsafe_hygiene(chk, prog)
+    import selftest
+    def _inv_and_laundering(c, p):
+        laundering_rule(c, p, inventory(c, p))
+    selftest.expect(chk, "C16", _inv_and_laundering, "C16.L", "an accessor returning &'a T derived from &self through a raw pointer", "get_terminal")
+    selftest.expect(chk, "C16", inventory, "C16.P", "a safe Deref over a public raw-pointer variant", "Borrow")
+    selftest.expect(chk, "C16", inventory, "C16.U", "a raw dereference of a pointer argument in a safe fn", "unjustified:unjustified")
+    selftest.expect(chk, "C16", signature_rule, "C16.S", "a safe fn building a Reference from *mut T", "from_raw_safe")
+    selftest.expect(chk, "C16", macro_unsafe_hygiene, "C16.M", "an exported macro expanding $e:expr inside unsafe", "bad_macro")
     if chk.tier == "thorough":
         for cfg in ("K2", "K3", "K4"):
             p2 = load_config(cfg)
